@@ -121,7 +121,8 @@ class C15World(World):
         e = self.entry
         if kind in ("probe", "trainpass"):
             fns = e.calls() if kind == "probe" else [c for c in e.calls() if c in ("forward", "log_prob")]
-            op.update(fn=sched.pick(fns), x=data.seed30(), rows=data.pick([2, 3, 4]), rng=data.pick([1, 2, 3]), n=data.pick([1, 2, 3]))
+            op.update(fn=sched.pick(fns), x=data.seed30(), rows=data.pick([1, 2, 3, 4]), rng=data.pick([1, 2, 3]), n=data.pick([1, 2, 3]),
+                      scale=data.pick([1.0, 1.0, 3.0]))
         elif kind == "update":
             op.update(x=data.seed30(), rows=3, lr=data.pick([0.01, 0.1]), rng=data.pick([1, 2]))
         elif kind == "restart":
@@ -135,16 +136,17 @@ class C15World(World):
         e = self.entry
         fn = op["fn"]
         rows = int(op.get("rows", 2))
+        sc = float(op.get("scale", 1.0))
         ctx = zoo.make_context(e, op["x"], rows, dtype=dtype)
         core.seed_global(op.get("rng", 1))
         if fn == "forward":
-            return root(zoo.make_input(e, op["x"], rows, dtype=dtype), ctx)
+            return root(zoo.make_input(e, op["x"], rows, dtype=dtype, scale=sc), ctx)
         if fn == "inverse":
-            return root.inverse(zoo.make_input(e, op["x"], rows, dtype=dtype, inverse=True), ctx)
+            return root.inverse(zoo.make_input(e, op["x"], rows, dtype=dtype, inverse=True, scale=sc), ctx)
         if fn == "log_prob":
-            return root.log_prob(zoo.make_input(e, op["x"], rows, dtype=dtype), ctx)
+            return root.log_prob(zoo.make_input(e, op["x"], rows, dtype=dtype, scale=sc), ctx)
         if fn == "transform_to_noise":
-            return root.transform_to_noise(zoo.make_input(e, op["x"], rows, dtype=dtype), ctx)
+            return root.transform_to_noise(zoo.make_input(e, op["x"], rows, dtype=dtype, scale=sc), ctx)
         if fn == "sample":
             return root.sample(int(op.get("n", 2)), context=ctx)
         if fn == "sample_and_log_prob":
